@@ -347,6 +347,6 @@ def campaigns(tier: str) -> List[Campaign]:
             Campaign("loader", loader_case(), check_loader, quick=24, thorough=480, quick_shards=8,
                      required_classes={"distinct_numberings": 0.5, "multiprocessing": 0.5, "controlled_completion_order": 0.4,
                                        "permuted_parse_order": 0.3, "incremental_load": 0.3,
-                                       "incremental_load_pool_after_first_batch": 0.05},
+                                       "incremental_load_pool_after_first_batch": 0.03},
                      sample_view=lambda cs: {"configs": cs["configs"], "names_per_rank": [
                          sorted({r.name for r in complete_rows(rd["events"])})[:8] for rd in cs["ranks"]]})]
